@@ -59,6 +59,15 @@ impl CopyHandle {
             }
         }
 
+        // A link at the destination that leads nowhere: creating the
+        // file "through" it would put it wherever the link happens to
+        // point, a place nothing was asked to be copied to.
+        if fs::symlink_metadata(to).is_ok_and(|m| m.file_type().is_symlink())
+            && matches!(fs::metadata(to), Err(e) if e.kind() == ErrorKind::NotFound)
+        {
+            return Err(XcpError::DestinationExists("Not writing through a dangling symbolic link.", to.to_path_buf()).into());
+        }
+
         if needs_backup(to, config)? {
             let backup = get_backup_path(to)?;
             info!("Backup: Rename {:?} to {:?}", to, backup);
